@@ -748,3 +748,80 @@ impl Interpreter for BytecodeInterpreter {
         &self.vm.unit_registry
     }
 }
+
+// verification hook (property C06/C07): canonical text of the interpreter's session state
+#[cfg(feature = "verif")]
+impl BytecodeInterpreter {
+    /// sections `(label, entries)`; globals in slot order (the slot order is behaviour: GetUpvalue indexes
+    /// the stack by position), everything that comes out of a hash map sorted
+    pub(crate) fn verif_c06_digest(&self) -> Vec<(&'static str, Vec<String>)> {
+        use crate::verif::c06::{raw_unit, raw_value};
+        let (stack, last) = self.vm.verif_c06_stack();
+        let globals: Vec<String> = self.locals[0]
+            .iter()
+            .enumerate()
+            .map(|(i, l)| {
+                format!(
+                    "{}={}",
+                    l.identifiers.join("|"),
+                    stack.get(i).map(raw_value).unwrap_or_else(|| "<no-slot>".into())
+                )
+            })
+            .collect();
+        let mut functions: Vec<String> = self
+            .functions
+            .iter()
+            .map(|(n, foreign)| format!("{n}:{}", if *foreign { "ffi" } else { "fn" }))
+            .collect();
+        functions.sort();
+        let mut units: Vec<String> = self
+            .unit_name_to_constant_index
+            .iter()
+            .map(|(n, idx)| {
+                let c = match self.vm.constants.get(*idx as usize) {
+                    Some(Constant::Unit(u)) => raw_unit(u),
+                    Some(_) => "<not-a-unit>".into(),
+                    None => "<no-constant>".into(),
+                };
+                format!("{n}>{c}")
+            })
+            .collect();
+        units.sort();
+        let reg = &self.vm.unit_registry.inner;
+        let mut reg_base: Vec<String> = reg.iter_base_entries().map(|n| n.to_string()).collect();
+        reg_base.sort();
+        let mut reg_derived: Vec<String> = reg
+            .iter_derived_entries()
+            .map(|n| {
+                let rep = reg
+                    .get_base_representation_for_name(&n)
+                    .map(|(r, _)| r.to_string())
+                    .unwrap_or_else(|_| "?".into());
+                format!("{n}={rep}")
+            })
+            .collect();
+        reg_derived.sort();
+        let (structs, _) = self.vm.verif_c06_names();
+        vec![
+            ("vm.globals", globals),
+            (
+                "vm.last",
+                vec![last.map(raw_value).unwrap_or_else(|| "-".into())],
+            ),
+            ("vm.functions", functions),
+            ("vm.units", units),
+            ("vm.reg.base", reg_base),
+            ("vm.reg.derived", reg_derived),
+            ("vm.structs", structs),
+        ]
+    }
+
+    pub(crate) fn verif_c06_structure(&self) -> String {
+        format!(
+            "depth={} globals={} {}",
+            self.locals.len(),
+            self.locals[0].len(),
+            self.vm.verif_c06_structure()
+        )
+    }
+}
